@@ -103,6 +103,12 @@ def run(ctx):
             hdim = rng.choice(list(d.spec['kinds']['face']))
             ds.encoding['unlimited_dims'] = {'record', hdim}
             ctx.count('encoding:horizontal dimension unlimited')
+        # another coordinate along the depth dimension that is not a depth (a layer number): it goes with the dimension
+        aux = n % 3 != 2
+        if aux:
+            ds = ds.assign_coords(layer_number=(specs[0]['dim'], numpy.arange(specs[0]['n'], dtype='i4') + 1))
+            ds.encoding = dict(ds.encoding)
+        ctx.count(f'auxiliary coordinate on the depth dimension:{aux}')
         ctx.count(f'family:{d.family}')
         ctx.count(f'depth_dimensions:{len(specs)}')
         ctx.count(f'coords_on_first_depth_dim:{len(specs[0]["coords"])}')
@@ -139,6 +145,15 @@ def run(ctx):
             if not (set(before[vn].dims) & depth_dims):
                 if vn not in out.variables or not before[vn].identical(out[vn]):
                     bad = bad or f'variable {vn} has no depth dimension but was changed or dropped'
+        # nothing that lay along a depth dimension survives in another shape, no variable gains coordinates it did not have
+        for cn in out.coords:
+            if cn in before.coords and set(before[cn].dims) & depth_dims:
+                bad = bad or f'coordinate {cn} lay along the depth dimension and is still present, now on {out[cn].dims}'
+        for vn in out.data_vars:
+            if vn in before.data_vars:
+                gained = set(map(str, out[vn].coords)) - set(map(str, before[vn].coords))
+                if gained:
+                    bad = bad or f'variable {vn} gained the coordinates {sorted(gained)}'
         if not bad and not ds.identical(before):
             bad = 'the input dataset was modified'
         if not bad:
